@@ -149,6 +149,7 @@ class Printer:
         self.default_file = None
         self.byref_captures = set()     # decl ids of non-reference variables a lambda captures by reference
         self.renamed = {}               # decl id -> printed name, for parameters whose C++ name repeats (expanded packs)
+        self.loop_bounds = {}           # loop ordinal -> printed bound expression of the loop condition (NV_LOOPBOUND_<c_name>_<k>)
         self.auto_loops = {}            # loop ordinal -> default contract of a canonical counting loop (NV_AUTOLOOP_<c_name>_<k>)
         self.loop_counters = {}         # loop ordinal -> printed name of the loop's counter variable (NV_LOOPVAR_<c_name>_<k>)
         self.tu = None                  # translation unit of the function (set by core.Fn.emit): where unmapped /repo helpers are looked up
@@ -875,6 +876,12 @@ class Printer:
         if name:
             self.loop_counters[self.loops] = name
             try:
+                b = self.loop_bound_expr(cond, name)
+                if b:
+                    self.loop_bounds[self.loops] = b
+            except Unsupported:
+                pass
+            try:
                 auto = self.auto_loop_contract(cond, parts)
             except Unsupported:
                 auto = None
@@ -942,6 +949,21 @@ class Printer:
                             f'({cc} <= {b} || {cn} == __CPROVER_loop_entry({cn}))) __CPROVER_decreases(({cc} <= {b}) ? ({b}) - ({cc}) : 0)')
                 return (f'__CPROVER_assigns({cn}) __CPROVER_loop_invariant({cn} <= __CPROVER_loop_entry({cn}) && '
                         f'({cc} >= {b} || {cn} == __CPROVER_loop_entry({cn}))) __CPROVER_decreases(({cc} >= {b}) ? ({cc}) - ({b}) : 0)')
+        return None
+
+    def loop_bound_expr(self, cond, counter):
+        """NV_LOOPBOUND_<c_name>_<k>: the expression the loop's condition compares its counter with (`kbest <= max_kbest` ->
+        `max_kbest`), printed from the current source: a contract that says "counter <= bound + 1" keeps following the bound when a
+        maintainer renames it or moves it into a local"""
+        for x in astload_walk(cond):
+            if x.get('kind') == 'BinaryOperator' and x.get('opcode') in ('<', '<=', '>', '>=', '!='):
+                for ci, bi in ((0, 1), (1, 0)):
+                    u = unwrap(x['inner'][ci])
+                    if u.get('kind') == 'DeclRefExpr' and self.renamed.get(u['referencedDecl'].get('id'), u['referencedDecl'].get('name')) == counter:
+                        bound = x['inner'][bi]
+                        if any(y.get('kind') in ('CallExpr', 'CXXMemberCallExpr', 'CXXOperatorCallExpr', 'CompoundAssignOperator') for y in astload_walk(bound)):
+                            return None
+                        return '(' + self.expr(bound) + ')'
         return None
 
     def find_loop_counter(self, cond, parts):
